@@ -1496,4 +1496,98 @@ Proof.
     rewrite app_nil_r in Hm. apply nomark_app in Hm. destruct Hm as [_ Hm]. discriminate.
 Qed.
 
+
+Lemma stmt_step : forall n s st rst rst' ms,
+  Inv st rst ms -> pre (cstmt s st) fin ->
+  exec_stmt O stale lits n s rst = Ok rst' ->
+  exists k ms', steps O C k ms = Some ms' /\ Inv (cstmt s st) rst' ms'.
+Proof.
+  intros n s. destruct s; intros.
+  - eapply step_expr; eassumption.
+  - eapply step_let; eassumption.
+  - eapply step_fn; eassumption.
+  - eapply step_foreign; eassumption.
+  - eapply step_struct; eassumption.
+  - eapply step_proc; eassumption.
+Qed.
+
+Lemma stmts_run : forall n p st rst rst' ms,
+  Inv st rst ms -> cstmts p st = fin ->
+  exec_stmts O stale lits n p rst = Ok rst' ->
+  exists k ms', steps O C k ms = Some ms' /\ Inv fin rst' ms'.
+Proof.
+  induction p as [|s p IH]; intros st rst rst' ms HI Efin H.
+  - simpl in *. inversion H; subst. exists 0, ms. split; [reflexivity | exact HI].
+  - simpl in H. apply bind_ok in H. destruct H as (rst1 & H1 & H2).
+    rewrite cstmts_cons in Efin.
+    assert (Hpre : pre (cstmt s st) fin) by (rewrite <- Efin; apply cstmts_pre).
+    destruct (stmt_step n s st rst rst1 ms HI Hpre H1) as (k1 & ms1 & S1 & HI1).
+    destruct (IH _ _ _ _ HI1 Efin H2) as (k2 & ms2 & S2 & HI2).
+    exists (k1 + k2), ms2. split; [eapply steps_trans; eassumption | exact HI2].
+Qed.
+
 End Top.
+
+(* ------------------------------------------------------------------ *)
+(* the program-level theorem *)
+Lemma fns_names_cstmts {Q} : forall (p : program Q) st,
+  map fst (s_fns (cstmts p st))
+  = map fst (s_fns st) ++ flat_map (fun s => match s with SFn f _ _ _ => [f] | _ => [] end) p.
+Proof.
+  induction p as [|s p IH]; intro st; simpl.
+  - rewrite app_nil_r. reflexivity.
+  - change (fold_left (fun st0 s0 => cstmt s0 st0) p (cstmt s st)) with (cstmts p (cstmt s st)).
+    rewrite IH. destruct s; simpl; try reflexivity.
+    + rewrite map_app. simpl. rewrite <- app_assoc. reflexivity.
+    + destruct (index_of name (c_ffi (s_env st))); reflexivity.
+Qed.
+
+Lemma chunk_names_compile {Q} : forall procs0 (p : program Q),
+  chunk_names (compile procs0 p) = fn_names p.
+Proof.
+  intros. unfold chunk_names, compile, finish, fn_names. simpl. f_equal.
+  rewrite fns_names_cstmts. reflexivity.
+Qed.
+
+Lemma stale_in_rposition {Q} : forall (p : program Q) x idx,
+  stale_in p x idx = false -> rposition x (fn_names p) = Some idx.
+Proof.
+  intros p x idx H. unfold stale_in, final_idx in H.
+  pose proof (rposition_find_last x (map (fun n => (n, tt)) (fn_names p))) as R.
+  assert (E0 : forall names, map fst (map (fun n : string => (n, tt)) names) = names).
+  { induction names; simpl; [reflexivity | f_equal; assumption]. }
+  rewrite E0 in R.
+  destruct (find_last x (map (fun n => (n, tt)) (fn_names p))) as [[i u]|]; [|discriminate].
+  destruct (rposition x (fn_names p)) as [j|]; [|contradiction]. destruct R as [E _]. subst j.
+  apply negb_false_iff in H. apply Nat.eqb_eq in H. subst. reflexivity.
+Qed.
+
+Theorem compile_correct_core {Q} : forall (O : ops Q) (p : program Q) n out v,
+  compile_ok (compile (procs O) p) = true ->
+  run_checked_core O n p = Ok (out, v) ->
+  exists m, Machine.run O (compile (procs O) p) m = Ok (out, v).
+Proof.
+  intros O p n out v Hok H. unfold run_checked_core, RefSem.run in H.
+  apply bind_ok in H. destruct H as (rst' & Hrun & E). inversion E; subst out v; clear E.
+  set (fin := cstmts p (cinit (procs O))).
+  assert (Hst : forall name idx, stale_in p name idx = false ->
+                                 rposition name (chunk_names (finish fin)) = Some idx).
+  { intros name idx Hs. unfold fin. change (finish (cstmts p (cinit (procs O)))) with (compile (procs O) p).
+    rewrite chunk_names_compile. apply stale_in_rposition. exact Hs. }
+  assert (HI : Inv O fin (cinit (procs O)) rinit (minit (Q := Q))).
+  { refine (conj (cstmts_pre _ _) (conj _ (conj eq_refl (conj eq_refl (conj _ (conj eq_refl eq_refl)))))).
+    - unfold cenv_rel. simpl.
+      refine (conj eq_refl (conj eq_refl (conj _ (conj _ (conj _ (conj _ _)))))).
+      + intro x. split; reflexivity.
+      + destruct (cstmts_pre p (cinit (procs O))) as (_ & _ & _ & [r E] & _). exists r. exact E.
+      + intro x. rewrite app_nil_r. apply index_of_mem.
+      + destruct (cstmts_pre p (cinit (procs O))) as (_ & _ & _ & _ & [r E]). exists r. exact E.
+      + exists []. reflexivity.
+    - intros i name fd Hi. destruct i; discriminate. }
+  destruct (stmts_run O (stale_in p) (false, false) eq_refl fin Hok Hst n p _ _ _ _ HI eq_refl Hrun)
+    as (k & ms' & S & HI').
+  destruct HI' as (_ & _ & _ & _ & _ & _ & Ems).
+  exists (k + 1). unfold Machine.run. change (compile (procs O) p) with (finish fin).
+  rewrite (steps_run O (finish fin) k 1 _ _ S). subst ms'.
+  cbn [run_from]. rewrite (step_halt O (finish fin) _ _ _ _ _ _ _ _ _ _ (main_chunk fin)); [reflexivity | lia].
+Qed.
